@@ -218,6 +218,25 @@ func hazards() []hazard {
 		"import (\n\t\"context\"\n\n\t\"go.uber.org/cff\"\n\t\"scratch/HZ/ha\"\n)\n\nfunc Run(ctx context.Context, n int) (string, error) {\n\tvar out string\n\terr := cff.Flow(ctx,\n\t\tcff.Params(n),\n\t\tcff.Results(&out),\n\t\tcff.Task(ha.Make),\n\t\tcff.Task(ha.Show),\n\t)\n\treturn out, err\n}\n",
 		map[string]string{"ha/a.go": "package ha\n\nimport \"scratch/HZ/hb\"\n\nfunc Make(i int) hb.X { return hb.X{N: i} }\n\nfunc Show(x hb.X) string { return x.String() }\n",
 			"hb/b.go": "package hb\n\nimport \"fmt\"\n\ntype X struct{ N int }\n\nfunc (x X) String() string { return fmt.Sprint(x.N) }\n"})
+	// The type of a value can live in a package the file does not import (it is
+	// reached through an imported function's signature): the generator has to
+	// add the import and qualify the type by the name that import binds.
+	unimp := func(feature, viaPath, viaPkg, tyPath, tyPkg, tyDecl, tyExpr, extraImport, extraUse string) {
+		body := "import (\n\t\"context\"\n\n\t\"go.uber.org/cff\"\n\t\"scratch/HZ/" + viaPath + "\"\n" + extraImport + ")\n\n" + extraUse +
+			"func Run(ctx context.Context, n int) (string, error) {\n\tvar out string\n\terr := cff.Flow(ctx,\n\t\tcff.Params(n),\n\t\tcff.Results(&out),\n\t\tcff.Task(" + viaPkg + ".Make),\n\t\tcff.Task(" + viaPkg + ".Show),\n\t)\n\treturn out, err\n}\n"
+		tyFile := tyPath + "/t.go"
+		add(feature, "accept", body, map[string]string{
+			viaPath + "/a.go": "package " + viaPkg + "\n\nimport (\n\t\"fmt\"\n\n\t\"scratch/HZ/" + tyPath + "\"\n)\n\nfunc Make(i int) " + tyExpr + " { var z " + tyExpr + "; _ = i; return z }\n\nfunc Show(x " + tyExpr + ") string { return fmt.Sprint(x) }\n",
+			tyFile:            "package " + tyPkg + "\n\n" + tyDecl + "\n",
+		})
+	}
+	unimp("unimported-package-name-differs-from-path:v2", "hv", "hv", "thing/v2", "thing", "type Thing struct{ N int }", "*thing.Thing", "", "")
+	unimp("unimported-package-name-differs-from-path:dash", "hd", "hd", "my-pkg", "mypkg", "type T struct{ N int }", "mypkg.T", "", "")
+	unimp("unimported-package-name-differs-from-path:go-prefix", "hg", "hg", "go-shape", "shape", "type Sq struct{ N int }", "[]shape.Sq", "", "")
+	unimp("unimported-package-same-name-as-imported", "hs", "hs", "two/util", "util", "type U struct{ N int }", "map[string]util.U", "\t\"scratch/HZ/one/util\"\n", "var _ = util.One\n\n")
+	hs[len(hs)-1].Files["one/util/u.go"] = "package util\n\nconst One = 1\n"
+	unimp("unimported-package-generic-type", "hq", "hq", "box", "box", "type Box[T any] struct{ V T }\n\ntype X struct{ N int }", "box.Box[box.X]", "", "")
+	unimp("unimported-package-named-like-file-ident", "hn", "hn", "cfg", "cfg", "type C struct{ N int }", "cfg.C", "", "var cfg = 3\n\nvar _ = cfg\n\n")
 	add("unexported-foreign-type", "accept",
 		"import (\n\t\"context\"\n\n\t\"go.uber.org/cff\"\n\t\"scratch/HZ/ext\"\n)\n\nfunc Run(ctx context.Context, n int) (string, error) {\n\tvar out string\n\terr := cff.Flow(ctx,\n\t\tcff.Params(n),\n\t\tcff.Results(&out),\n\t\tcff.Task(ext.MakeX),\n\t\tcff.Task(ext.Show),\n\t)\n\treturn out, err\n}\n",
 		map[string]string{"ext/e.go": "package ext\n\nimport \"fmt\"\n\ntype x struct{ n int }\n\nfunc MakeX(i int) x { return x{i} }\n\nfunc Show(v x) string { return fmt.Sprint(v.n) }\n"})
@@ -248,7 +267,7 @@ func hazards() []hazard {
 	add("generic-method-receiver", "accept",
 		"import (\n\t\"context\"\n\n\t\"go.uber.org/cff\"\n)\n\ntype Box[T any] struct{ v T }\n\nfunc (b *Box[T]) Run(ctx context.Context, n int) (T, error) {\n\tvar out T\n\terr := cff.Flow(ctx,\n\t\tcff.Params(n),\n\t\tcff.Results(&out),\n\t\tcff.Task(func(i int) (T, error) { return b.v, nil }),\n\t)\n\treturn out, err\n}\n\nfunc Run(ctx context.Context, n int) (string, error) { return (&Box[string]{\"s\"}).Run(ctx, n) }\n", nil)
 	add("slice-noindex-with-end", "accept",
-		"import (\n\t\"context\"\n\n\t\"go.uber.org/cff\"\n)\n\nfunc Run(ctx context.Context, n int) error {\n\tdone := false\n\treturn cff.Parallel(ctx,\n\t\tcff.Slice(func(s string) error { return nil }, []string{\"a\", \"b\"}, cff.SliceEnd(func() { done = true })),\n\t)\n}\n", nil)
+		"import (\n\t\"context\"\n\n\t\"go.uber.org/cff\"\n)\n\nfunc Run(ctx context.Context, n int) error {\n\tdone := false\n\tdefer func() { _ = done }()\n\treturn cff.Parallel(ctx,\n\t\tcff.Slice(func(s string) error { return nil }, []string{\"a\", \"b\"}, cff.SliceEnd(func() { done = true })),\n\t)\n}\n", nil)
 	add("named-map-type", "accept",
 		"import (\n\t\"context\"\n\n\t\"go.uber.org/cff\"\n)\n\ntype M map[string]int\n\nfunc Run(ctx context.Context, n int) error {\n\treturn cff.Parallel(ctx,\n\t\tcff.Map(func(k string, v int) error { return nil }, M{\"a\": n}),\n\t)\n}\n", nil)
 	return hs
